@@ -44,7 +44,7 @@ int main(int argc, char **argv) {
     else if (!strcmp(prop, "C03")) scen_c03(thorough ? 150 : 14, thorough ? 80 : 40, thorough ? 35 : 12);
     else if (!strcmp(prop, "C05")) scen_c05(thorough ? 120 : 12, thorough ? 60 : 25, thorough ? 30 : 5);
     else if (!strcmp(prop, "C07")) scen_c07(thorough ? 200 : 20, thorough ? 40 : 20);
-    else if (!strcmp(prop, "C06")) scen_c06(thorough ? 12 : 3, 30, thorough ? 4000 : 350);
+    else if (!strcmp(prop, "C06")) scen_c06(thorough ? 12 : 3, 30, thorough ? 2200 : 350);
     else if (!strcmp(prop, "C01")) scen_c01(thorough ? 40 : 5, 25, thorough ? 1500 : 400);
     else if (!strcmp(prop, "C13")) scen_c13(thorough ? 2500 : 250, thorough ? 3 : 1);
     else if (!strcmp(prop, "C12")) scen_c12(thorough ? 120 : 9, thorough ? 150 : 60, thorough);
